@@ -79,6 +79,10 @@ class Handle:
         self.f.length = SymInt(z3.If(I(end) >= I(self.f.length), I(end), I(self.f.length)))
         self.pos = end
 
+    def write(self, data):
+        for a in data.parts:
+            self.write_sym(a.nbytes, a.tag, a.values)
+
     def read_sym(self, nbytes, dtype):
         nb = nbytes if isinstance(nbytes, SymInt) else SymInt(nbytes)
         r = {'pos': I(self.pos), 'n': I(nb), 'dtype': str(np.dtype(dtype))}
@@ -119,6 +123,19 @@ class SymArr:
 
     def tofile(self, f):
         f.write_sym(self.nbytes, self.tag, self.values)
+
+    def tobytes(self, order='C'):
+        return SymBytes([self])
+
+
+class SymBytes:
+    """bytes of one or more SymArr (so that code writing through f.write(a.tobytes() + b.tobytes()) is modelled too)"""
+
+    def __init__(self, parts):
+        self.parts = parts
+
+    def __add__(self, o):
+        return SymBytes(self.parts + o.parts)
 
 
 class ReadBack(list):
@@ -196,7 +213,7 @@ def describe(rep):
         'offsets. SMT (QF_NIA) validity queries per path: after any crash nFields = k; every read of idx in [-k, k) touches exactly the time / '
         'field extent of record idx and never the torn tail; idx outside is rejected; a record appended after the crash is read back from exactly '
         'the bytes it wrote and does not disturb earlier records; header values read back are the ones written; initialize refuses an existing '
-        'file. Block decomposition: CrossHair contracts over symbolic grid sizes / rank counts. Bit-exact numpy round trips of every dtype are '
+        'file. Block decomposition: CrossHair contracts over symbolic grid sizes / rank counts. Bit-exact numpy round trips of every dtype and memory layout (C, Fortran, transposed, strided) are '
         'concrete side conditions on real temporary files (numpy tofile/fromfile are trusted).'
     )
     rep.rule = 'case = execution path of the real I/O code on the symbolic file (crash location class x index sign x ...)'
@@ -677,6 +694,13 @@ def bits_case(rep):
                     for j in range(3):
                         u = (rng.rand(*shape) + (1j * rng.rand(*shape) if np.dtype(dt).kind == 'c' else 0)).astype(dt)
                         u.flat[0] = np.array(-0.0, dtype=dt) if j == 0 else u.flat[0]
+                        # memory layout of the array handed to addField: C order, Fortran order, transposed view, strided view
+                        if j == 1:
+                            u = np.asfortranarray(u)
+                        elif j == 2 and len(shape) >= 2:
+                            u = np.ascontiguousarray(u.transpose()).transpose()
+                        elif j == 2:
+                            u = np.repeat(u, 2)[::2]
                         t = float(rng.rand()) * 10 ** rng.randint(-5, 5)
                         f.addField(t, u)
                         recs.append((t, u))
